@@ -218,6 +218,7 @@ class DiameterEapAnswer(DiameterEap):
 
         setattr(self, "auth_application_id", 5)
         setattr(self, "state_class", [])
+        setattr(self, "reply_message", [])
         setattr(self, "configuration_token", [])
         setattr(self, "failed_avp", [])
         setattr(self, "filter_id", [])
